@@ -13,6 +13,7 @@ import (
 	"io"
 	"log/slog"
 	"math/rand/v2"
+	"net"
 	"net/http"
 	"net/http/httptest"
 	"os"
@@ -204,11 +205,11 @@ func idRequestURI(id int) string {
 func idBody(id int) string { return fmt.Sprintf("body-%d-%s", id, strings.Repeat("z", id%50)) }
 
 // script: what the invocation for id writes
-func idKind(id int) int { return (id / 4) % 4 }
+func idKind(id int) int { return (id / 4) % 6 }
 func idCode(id int) int { return 200 + (id*37)%400 }
 
 func expectedCode(id int) int {
-	if idKind(id) >= 2 {
+	if k := idKind(id); k >= 2 && k <= 4 {
 		return idCode(id)
 	}
 	return 200
@@ -307,6 +308,36 @@ func (e *env) inner(w http.ResponseWriter, r *http.Request) {
 		}
 		w.WriteHeader(idCode(id))
 		_, _ = io.WriteString(w, "resp-"+idStr)
+	case 4:
+		// a handler that flushes through a response controller, which finds the real writer by unwrapping
+		// the middleware's one
+		w.WriteHeader(idCode(id))
+		_, _ = io.WriteString(w, "resp-")
+		if err := http.NewResponseController(w).Flush(); err != nil {
+			e.problem("request %d: Flush through the response controller of the writer the middleware passed: %v", id, err)
+		}
+		_, _ = io.WriteString(w, idStr)
+	case 5:
+		if !e.realSrv {
+			_, _ = io.WriteString(w, "resp-"+idStr) // a recorder cannot be hijacked
+			break
+		}
+		// take the connection over (directly, as older packages do, or through a response controller) and
+		// answer by hand
+		var conn net.Conn
+		var err error
+		if hj, ok := w.(http.Hijacker); ok && id%8 < 4 {
+			conn, _, err = hj.Hijack()
+		} else {
+			conn, _, err = http.NewResponseController(w).Hijack()
+		}
+		if err != nil {
+			e.problem("request %d: Hijack through the writer the middleware passed: %v", id, err)
+			break
+		}
+		body := "resp-" + idStr
+		_, _ = fmt.Fprintf(conn, "HTTP/1.1 200 OK\r\nX-Id: %s\r\nContent-Length: %d\r\nConnection: close\r\n\r\n%s", idStr, len(body), body)
+		_ = conn.Close()
 	}
 	if l != nil && id%3 == 0 {
 		l.Info("inner-late", "id", id)
@@ -619,7 +650,7 @@ func TestIsolation(t *testing.T) {
 	r.Count("requests", reqs.Load())
 	r.Count("barriers_with_two_or_more_requests_inside_the_handler", barriers.Load())
 	r.Max("max_requests_inside_the_handler_at_once", maxInside.Load())
-	r.Sample(map[string]any{"request": map[string]any{"id": 1234, "method": idMethod(1234), "uri": idURI(1234), "host": idHost(1234), "raddr": idRaddr(1234), "script": []string{"writes nothing", "Write only", "WriteHeader(code)", "WriteHeader(code)"}[idKind(1234)], "code": expectedCode(1234)}})
+	r.Sample(map[string]any{"request": map[string]any{"id": 1234, "method": idMethod(1234), "uri": idURI(1234), "host": idHost(1234), "raddr": idRaddr(1234), "script": []string{"writes nothing", "Write only", "WriteHeader(code)", "1xx then WriteHeader(code)", "WriteHeader, Write, Flush via ResponseController, Write", "Hijack and answer by hand (real server)"}[idKind(1234)], "code": expectedCode(1234)}})
 	if r.Finish() > 0 {
 		t.Fail()
 	}
